@@ -203,18 +203,6 @@ Proof.
 Qed.
 
 (* ---- the registry invariant: a handler in the trie is one accepted Handle call ---- *)
-Record entry := Ent { e_pat : bytes; e_hid : N; e_grp : bytes; e_par : bool }.
-Definition e_skel (e : entry) : list ptok := skel (ptoks (e_pat e)).
-
-Fixpoint fent (root : node) (ops : list fop) : list entry :=
-  match ops with
-  | [] => []
-  | o :: r =>
-    match o with
-    | FHandle pat hid grp par => if is_ok (frun_op root o) then [Ent pat hid grp par] else []
-    | FListen _ _ => []
-    end ++ fent (out_state (frun_op root o)) r
-  end.
 Lemma fregs_fent : forall ops root, fregs root ops = map (fun e => (e_skel e, e_hid e)) (fent root ops).
 Proof.
   induction ops as [|o r IH]; intros root; [reflexivity|]. cbn [fregs fent]. rewrite map_app, IH.
